@@ -428,7 +428,7 @@ pub fn ask_end_race_round(rt: &tokio::runtime::Runtime, cap: usize, askers: usiz
     (if joined { askers - returned } else { 0 }, returned)
 }
 
-pub fn c03_race(seed: u64, rounds: u32, replay_out: &str, part: &mut Part) -> i32 {
+pub fn c03_race(prop: &'static str, seed: u64, rounds: u32, replay_out: &str, part: &mut Part) -> i32 {
     let mut x = seed.wrapping_mul(0x9E3779B97F4A7C15) | 1;
     let mut next = |n: u64| {
         x ^= x << 13;
@@ -442,7 +442,7 @@ pub fn c03_race(seed: u64, rounds: u32, replay_out: &str, part: &mut Part) -> i3
         let cap = [1usize, 2, 8, 32][next(4) as usize];
         let askers = 1 + next(4) as usize;
         let cause = next(4) as u8;
-        let blocking = next(2) == 0;
+        let blocking = next(2) == 0 || prop == "C17";
         let jitter = next(400) as u32;
         let (hung, returned) = ask_end_race_round(&rt, cap, askers, cause, blocking, jitter);
         part.evaluations += 1;
@@ -459,8 +459,8 @@ pub fn c03_race(seed: u64, rounds: u32, replay_out: &str, part: &mut Part) -> i3
         if hung > 0 {
             let cause_s = ["handler panic", "stop()", "kill()", "drop of the last reference"][cause as usize % 4];
             let detail = format!("{hung} of {askers} {} ask(s) issued while the actor (capacity {cap}) was ending by {cause_s} had not returned 3 s after its JoinHandle resolved", if blocking { "blocking_ask" } else { "async" });
-            let path = write_replay(replay_out, "C03", "ask-hangs-on-ended-actor-race", &detail, serde_json::json!({"ask_end_race": {"cap": cap, "askers": askers, "cause": cause, "blocking": blocking}}));
-            println!("VIOLATION property=C03 replay={path}");
+            let path = write_replay(replay_out, prop, "ask-hangs-on-ended-actor-race", &detail, serde_json::json!({"ask_end_race": {"cap": cap, "askers": askers, "cause": cause, "blocking": blocking}}));
+            println!("VIOLATION property={prop} replay={path}");
             println!("  kind=ask-hangs-on-ended-actor-race detail={detail}");
             part.violations.push(serde_json::json!({"kind": "ask-hangs-on-ended-actor-race", "detail": detail, "replay": path}));
             return 1;
